@@ -56,6 +56,7 @@ def run(prog, rep, tier, repo):
             try:
                 # equalities asserted on the way to the return (x.len() == y.len()) may be used to identify row-count arguments
                 me_._cur_bb = f.cfg.returns[0] if f.cfg.returns else None
+                me_.vander_seen = []
                 e, r, c = me_.mat(f, val, ix, {x: 'x', y: 'y'})
                 V = ('M', 'V')
                 want = ('Mul', ('Inv', ('Mul', T(V), V)), ('Mul', T(V), ('M', 'y')))
@@ -64,10 +65,13 @@ def run(prog, rep, tier, repo):
                 ncoef = ('len', ('field', me, 0, 'std::vec::Vec<f64>'))
                 if not (strip_casts(r) == ncoef or peq(poly(r), poly(ncoef))):
                     problems.append('result has %s rows, expected coef.len()' % show(r))
-                # vandermonde called with (x, coef.len())
-                vd = [z for z in subterms(val) if tag(z) == 'call' and z[1].endswith('utils::vandermonde')]
-                if not vd or any(z[2] != (x, ncoef) for z in vd):
-                    problems.append('the design matrix is not vandermonde(x, coef.len())')
+                # vandermonde called with (x, coef.len()), wherever the call sits (fit itself or a helper read through by the evaluation)
+                vd = list(getattr(me_, 'vander_seen', []))
+                if not vd:
+                    undec.append('no vandermonde call met while evaluating the fit')
+                elif any(not (strip_casts(a0) == x and (strip_casts(a1) == ncoef or peq(poly(a1), poly(ncoef)))) for a0, a1 in vd):
+                    bad_ = [(a0, a1) for a0, a1 in vd if not (strip_casts(a0) == x and (strip_casts(a1) == ncoef or peq(poly(a1), poly(ncoef))))][0]
+                    problems.append('the design matrix is vandermonde(%s, %s), not vandermonde(x, coef.len())' % (show(bad_[0])[:30], show(bad_[1])[:30]))
             except MatProblem as ex:
                 (problems if ex.definite else undec).append(str(ex))
         # length assert
